@@ -806,7 +806,9 @@ func ruleResumeRefusesBeforeItPushes(c *Ctx) {
 		}
 		n++
 		b, i := after(in)
-		if g.walk(b, i, nil, func(x ssa.Instruction) bool { return isCallTo(x, mk) }) {
+		// (what is reported once the thread has run — threadRun — is a result, not a refusal)
+		run := p.Fn("lua", "threadRun")
+		if g.walk(b, i, func(x ssa.Instruction) bool { return run != nil && isCallTo(x, run) }, func(x ssa.Instruction) bool { return isCallTo(x, mk) }) {
 			okc = false
 			where = in
 		}
